@@ -32,11 +32,12 @@ QUERY_TOKENS = [
 SEED_QUERIES = U.EXTENSION_QUERIES + U.COMPOUND_QUERIES + [
     "$[?@.a == 1e400]", "$[1e2]", "$[?@ =~ /(/]", "$[?1 in @]", "$[?@ in $[0]]", "$[?count(@) == 1]", "$[?length(@.a) > 1e2]", "$[?@.a == 1.5e400]",
     "$[?isinstance(@.a, 'number')]", "$[?is(@.a, @.b)]", "$[?isinstance(@, @)]", "$[?is(@.a, $[4])]", "$[?typeof(@.a) == 'string']", "$[?typeof(@) == @.a]", "$[?isinstance(@.b, 'array')]",
+    "$[?@ =~ /(?u)a/a]", "$[?@ =~ /(?a)a/]", "$[?@ =~ /(?i)a/s]", "$[?@ =~ /a(?i)b/]", "$[?@ =~ /a{99999999999}/]",
     "$[?match(@.a, 'a{99999999999}')]", "$[?search(@.a, 'a{2,1}')]", "$[?match(@.a, '(?P<n>a)(?P<n>b)')]",
     "$[?match(@.a, '(')]", "$[?search(@, '[')]", "$[?@ =~ /[/]", "$[?typeof(@) == 1]", "$[?@.a == -1e-400]", "$['\\ud800']", "$['\\u12']", "$[?@ == '\\x']",
 ]
-POINTER_TOKENS = ["/", "~", "~0", "~1", "~2", "#", "#0", "#x", "-", "0", "1", "01", "+1", "a", "\\", "\\u0041", "\\ud800", "\\ud83d\\ude00", "\\x", "%41", "%", "%zz", " ", "é", "9" * 30]
-REL_TOKENS = ["0", "1", "2", "01", "+", "-", "+1", "-1", "+0", "+12", "#", "/", "/a", "/0", " ", "x", ""]
+POINTER_TOKENS = ["/", "~", "~0", "~1", "~2", "#", "#0", "#x", "-", "0", "1", "01", "+1", "a", "²", "٣", "1²", "１", "\\", "\\u0041", "\\ud800", "\\ud83d\\ude00", "\\x", "%41", "%", "%zz", " ", "é", "9" * 30]
+REL_TOKENS = ["0", "1", "2", "01", "+", "-", "+1", "-1", "+0", "+12", "#", "/", "/a", "/0", " ", "x", "", "²", "/²"]
 FAMILY = {
     "compile": (JSONPathError,),
     "evaluate": (JSONPathError,),
@@ -104,7 +105,7 @@ def run(tier, seed):
     n = 9000 if tier == "quick" else 400000
     rec = U.Recorder(f"{n} fuzzed query texts (token soup + single edits of {len(SEED_QUERIES)} seeds) x 4 documents; {n // 3} pointer texts x 4 documents; {n // 6} relative pointers; {n // 3} patches", max_failures=60)
     env = jsonpath.JSONPathEnvironment()
-    docs = [[{"a": 1, "b": "abc"}, "xyz", 0, None, [1, "a"], {"a": {"b": [1]}}], {"a": "abc", "b": [1, {"a": "x"}], "c": {"a": 1}}, "text", 5]
+    docs = [[{"a": 1, "b": "abc"}, "xyz", 0, None, [1, "a"], {"a": {"b": [1]}}], ["plain", "{oops", "[1,", {"a": "{x"}, '{"a": 1}'], {"a": "abc", "b": [1, {"a": "x"}], "c": {"a": 1}}, "text", 5]
     old = signal.signal(signal.SIGALRM, _alarm)
     try:
         for i in range(n + len(HUGE)):
@@ -159,13 +160,21 @@ def run(tier, seed):
                             rec.fail(f"ptrstr:{text}", f"str/repr/parent of JSONPointer({text!r}) raised {type(e).__name__}", "sys.exit(2)")
         for i in range(n // 6):
             rel = "".join(rng.choice(REL_TOKENS) for _ in range(rng.randint(1, 4)))
-            base = "".join(rng.choice(["/a", "/0", "/1", "", "/b/2"]) for _ in range(rng.randint(0, 3)))
+            base = "".join(rng.choice(["/a", "/0", "/1", "", "/b/2", "/²", "/a/٣"]) for _ in range(rng.randint(0, 3)))
             why = guarded("pointer", lambda: RelativeJSONPointer(rel).to(JSONPointer(base))) or guarded("pointer", lambda: JSONPointer(base).to(rel)) or guarded("pointer", lambda: str(RelativeJSONPointer(rel)))
             if why:
                 rec.fail(f"rel:{why[:40]}", f"RelativeJSONPointer({rel!r}).to(JSONPointer({base!r})) -> {why}",
                          f"from jsonpath import JSONPointer, RelativeJSONPointer\nfrom jsonpath.exceptions import JSONPointerError, RelativeJSONPointerError\ntry:\n    RelativeJSONPointer({rel!r}).to(JSONPointer({base!r}))\nexcept (JSONPointerError, RelativeJSONPointerError):\n    sys.exit(0)\nexcept Exception as e:\n    print(type(e).__name__, e); sys.exit(1)\nsys.exit(0)")
             else:
                 rec.ok(("r", rel))
+        for base in ("/²", "/foo/²", "/٣", "/1²", "/foo/１", "/-1", "/+1", "/ 1"):
+            for rel in ("0+1", "0-1", "1+1", "0+1/x", "0-1#", "0#", "0+12"):
+                why = guarded("pointer", lambda: RelativeJSONPointer(rel).to(JSONPointer(base))) or guarded("pointer", lambda: JSONPointer(base).to(rel))
+                if why:
+                    rec.fail(f"rel-digit:{why[:40]}", f"JSONPointer({base!r}).to({rel!r}) -> {why}",
+                             f"from jsonpath import JSONPointer\nfrom jsonpath.exceptions import JSONPointerError, RelativeJSONPointerError\ntry:\n    JSONPointer({base!r}).to({rel!r})\nexcept (JSONPointerError, RelativeJSONPointerError):\n    sys.exit(0)\nexcept Exception as e:\n    print(type(e).__name__, e); sys.exit(1)\nsys.exit(0)")
+                else:
+                    rec.ok(("rel-digit", base, rel))
         opnames = ["add", "remove", "replace", "move", "copy", "test", "addne", "addap", "nope", 1, None]
         ppaths = ["", "/a", "/a/0", "/b/-", "/b/0", "/b/5", "/#", "/a/#0", "/~", "/-", "/c/a", "a", "/b/01", "/\\", "/b/-1", 5, None, "/a\\u00",
                   "/#a", "/#b", "/b/#0", "/b/#1", "/b/#5", "/#0", "/#1", "/~a", "/b/~0", "/a/#a", "/#c", "/2/#a", "/1/#0"]
